@@ -8,7 +8,7 @@ COQ_IMPORTS = 'From Coq Require Import NArith.\nFrom PB Require Import model.M_e
 COQ_PRELUDE = ''
 PER_FILE = 400
 CASE_TIMEOUT = 5
-RULE = ('trees = nests of dict / Dict / dictattr over string keys with leaves None / ints / strings / lists, depth <= 4. flat cases: tree_items, '
+RULE = ('trees = nests of dict / Dict / dictattr over string keys (some containing dots, incl. the colliding {v1.0: .., v1: {0: ..}}; paths are always tuples / lists) with leaves None / ints / strings / lists, depth <= 4. flat cases: tree_items, '
         'tree_keys, tree_values, tree_getitem on every listed path, items_to_tree(tree_items(t)). update cases: tree_update(t, u, ignore) or '
         'Dict + dict with canonical deep snapshots (class, key order, leaves of every branch) of BOTH operands taken before and after the call; '
         'EVERY pair of the 36 dict-rooted trees over keys {a,b} of depth <= 2 (empty branches included), random pairs where u is derived from t '
@@ -26,13 +26,13 @@ EXPLANATION = ('theorems C15_* (coq/props/C15.v) hold for every tree of the indu
                '(C15_tree_table_tree_inverse); the pinned shallow-copy variant is refuted inside Coq on the DESIGN input. The correspondence ties the model to /repo on thousands of trees')
 TRUSTED = ['modelled, not verified: Python dict insertion order / in-place assignment (association lists, M_tree.kset), copy() of a dict (a new object sharing the values), '
            'the harness builder that turns the JSON description into Python objects and Coq literals']
-ASSUMPTIONS = ['keys are ASCII strings without dots', 'branches are exactly dict, Dict or dictattr objects; leaves are None, ints, strings or lists of those',
+ASSUMPTIONS = ['keys are ASCII strings (dots allowed: every path is passed as a tuple / list, never as a dotted string)', 'branches are exactly dict, Dict or dictattr objects; leaves are None, ints, strings or lists of those',
                'the operands hold no object twice (trees, not DAGs)', 'wildcard names in a pattern are distinct; wildcard values used as keys are strings']
 EXHAUSTIVE = {'quick': False, 'thorough': False}
 
 CLS = {'dict': 0, 'Dict': 1, 'dictattr': 2}
 CLSN = ['dict', 'Dict', 'dictattr']
-KEYS = ['a', 'b', 'c', 'd', 'x']
+KEYS = ['a', 'b', 'c', 'd', 'x', 'v1.0', 'v1', '0', 'a.b', '.']
 
 def Nd(kids, cls='dict'): return ['N', cls, [[k, v] for k, v in kids]]
 def Lf(v): return ['L', v]
@@ -154,7 +154,7 @@ def impl(case):
             items = tree_items(t); keys = tree_keys(t); values = tree_values(t)
             got = []
             for p in keys:
-                try: got.append(canon_tree(tree_getitem(t, list(p))))
+                try: got.append(canon_tree(tree_getitem(t, tuple(p) if len(p) % 2 else list(p))))
                 except Exception as e: got.append(['ERR', 'KeyError'])
             try: back = items_to_tree(items); cback = canon_tree(back)
             except Exception as e: back = None; cback = ['ERR', err(e)]
@@ -302,8 +302,8 @@ def derive(rng, t, d):
         kids = [[rng.choice(KEYS), Lf(rand_leaf(rng))]]
     return ['N', rng.choice(CLSN), kids]
 
-LITS = ['markets', 'weight', 'k', 'm']
-VALS = ['TY', 'ES', 'GC', 'p', 'q']
+LITS = ['markets', 'weight', 'k', 'm', 'v1.0', 'a.b']
+VALS = ['TY', 'ES', 'v1.0', 'p', 'q']
 def rand_table(rng):
     nseg = rng.choice([2, 3, 3, 4, 4, 5, 6])
     nw = rng.randrange(1, min(4, nseg) + 1)
@@ -326,8 +326,19 @@ def rand_table(rng):
         seen.add(path); rng.shuffle(r); rows.append(r)
     return pat, rows
 
+def dotted_seeds():
+    """keys containing '.' are ordinary keys when the path is a tuple / list: the colliding shapes"""
+    t1 = Nd([('v1.0', Nd([('x', Lf(1))])), ('v1', Nd([('0', Nd([('x', Lf(2))]))]))])
+    t2 = Nd([('a.b', Lf(1)), ('a', Nd([('b', Lf(2))]))], 'Dict')
+    t3 = Nd([('a', Nd([('b.c', Lf(1)), ('b', Nd([('c', Lf(2))]))]))], 'dictattr')
+    out = [{'kind': 'flat', 't': t} for t in (t1, t2, t3)]
+    out += [{'kind': 'update', 't': t1, 'u': Nd([('v1.0', Nd([('x', Lf(5))]))])}, {'kind': 'update', 't': t1, 'u': Nd([('v1', Nd([('0', Nd([('y', Lf(5))]))]))])},
+            {'kind': 'update', 't': t2, 'u': Nd([('a.b', Nd([('c', Lf(3))])), ('a', Nd([('b', Lf(None))]))]), 'via': 'add'},
+            {'kind': 'table', 'pattern': ['v1.0', '%m', 'a.b', '%w'], 'rows': [[['m', 'v1.0'], ['w', 1]], [['m', 'v1'], ['w', 2]]]}]
+    return out
+
 def gen_cases(rng, tier):
-    cases = []
+    cases = dotted_seeds()
     T2 = [t for t in small_trees(2, 1) if is_node(t)]
     U2 = [t for t in small_trees(2, 2) if is_node(t)]
     for t in T2:
